@@ -148,11 +148,11 @@ func genGraph(r *core.Rand, race bool) *graphCase {
 			if r.Bool(0.25) && !(long && g < 2) {
 				n = 0 // empty batch
 			}
-			if table && g > 0 {
-				n = 0
-			}
 			if table && g == 0 && n == 0 {
 				n = 1
+			}
+			if table && n > 2 {
+				n = 2
 			}
 			total += n
 			m.Batches = append(m.Batches, total)
@@ -341,6 +341,8 @@ func writeGraphFile(gc *graphCase, path string) error {
 	return t.Save(path)
 }
 
+var errNonFiniteInput = fmt.Errorf("a linked series is not finite")
+
 type refResult struct {
 	out    [][][]float64 // [node][output][t]
 	states [][]float64
@@ -385,6 +387,13 @@ func referenceRun(gc *graphCase, orders map[inKey][]int) (map[string]*refResult,
 				rr.inputs[k] = make([][]float64, m.nIn)
 				for j := 0; j < m.nIn; j++ {
 					rr.inputs[k][j] = sumTerms(gc, res, i, k, j, terms[inKey{i, k, j}], orders[inKey{i, k, j}], gc.T)
+				}
+				for _, ser := range rr.inputs[k] {
+					for _, v := range ser {
+						if math.IsNaN(v) || math.IsInf(v, 0) {
+							return nil, errNonFiniteInput
+						}
+					}
 				}
 				run := &MRun{Model: m.Name, N: 1, T: gc.T, Sets: []PSet{m.Sets[k]}, Inputs: [][][]float64{rr.inputs[k]}, States: [][]float64{append([]float64{}, m.States[k]...)}}
 				o, err := Execute(run)
@@ -668,6 +677,13 @@ func owsimCase(c *core.Ctx, race bool) {
 		c.Trivial()
 	}
 	ref, err := referenceRun(gc, nil)
+	if err == errNonFiniteInput {
+		// a source model produced NaN/Inf that the links feed into another model (several kernels panic on that):
+		// the generated graph is not a valid model, not a case
+		c.Trivial()
+		c.Count("graphs_skipped_nonfinite_link_series", 1)
+		return
+	}
 	if err != nil {
 		c.Inconclusive("reference executor failed: " + err.Error())
 		return
